@@ -5,6 +5,9 @@
     // abstract content: which indices hold a value, and which
     spec fn has(&self, id: Index) -> bool;
     spec fn val(&self, id: Index) -> T;
+    // representation invariant of the implementor (true for kinds without one); only `insert` needs it, every
+    // operation preserves it
+    spec fn us_wf(&self) -> bool;
     // change-tracking effect (empty for plain kinds): the events written so far, and what each raw operation appends
     spec fn log(&self) -> Seq<ComponentEvent>;
     spec fn ev_insert(&self, id: Index) -> Seq<ComponentEvent>;
@@ -16,6 +19,7 @@
         requires forall|i: Index| has.bview().contains(i) <==> old(self).has(i),
         ensures
             /*@L:trait.clean.empty*/ forall|i: Index| !final(self).has(i) /*@E*/,
+            /*@L:trait.clean.wf*/ old(self).us_wf() ==> final(self).us_wf() /*@E*/,
             /*@L:trait.clean.events*/ final(self).log() == old(self).log() && (forall|j: Index| #![trigger final(self).ev_insert(j)] #![trigger final(self).ev_remove(j)] #![trigger final(self).ev_get_mut(j)] final(self).ev_insert(j) == old(self).ev_insert(j) && final(self).ev_remove(j) == old(self).ev_remove(j) && final(self).ev_get_mut(j) == old(self).ev_get_mut(j)) /*@E*/;
 
     unsafe fn get(&self, id: Index) -> (r: &T)
@@ -26,12 +30,14 @@
         requires old(self).has(id),
         ensures
             /*@L:trait.get_mut.val*/ *r == old(self).val(id) && final(self).val(id) == *final(r) /*@E*/,
+            /*@L:trait.get_mut.wf*/ old(self).us_wf() ==> final(self).us_wf() /*@E*/,
             /*@L:trait.get_mut.frame*/ (forall|j: Index| #![trigger final(self).has(j)] final(self).has(j) == old(self).has(j)) && (forall|j: Index| #![trigger final(self).val(j)] j != id ==> final(self).val(j) == old(self).val(j)) /*@E*/,
             /*@L:trait.get_mut.events*/ final(self).log() == old(self).log() + old(self).ev_get_mut(id) && (forall|j: Index| #![trigger final(self).ev_insert(j)] #![trigger final(self).ev_remove(j)] #![trigger final(self).ev_get_mut(j)] final(self).ev_insert(j) == old(self).ev_insert(j) && final(self).ev_remove(j) == old(self).ev_remove(j) && final(self).ev_get_mut(j) == old(self).ev_get_mut(j)) /*@E*/;
 
     unsafe fn insert(&mut self, id: Index, value: T)
-        requires !old(self).has(id),
+        requires !old(self).has(id), old(self).us_wf(),
         ensures
+            /*@L:trait.insert.wf*/ final(self).us_wf() /*@E*/,
             /*@L:trait.insert.val*/ final(self).has(id) && final(self).val(id) == value /*@E*/,
             /*@L:trait.insert.frame*/ (forall|j: Index| #![trigger final(self).has(j)] j != id ==> final(self).has(j) == old(self).has(j)) && (forall|j: Index| #![trigger final(self).val(j)] j != id ==> final(self).val(j) == old(self).val(j)) /*@E*/,
             /*@L:trait.insert.events*/ final(self).log() == old(self).log() + old(self).ev_insert(id) && (forall|j: Index| #![trigger final(self).ev_insert(j)] #![trigger final(self).ev_remove(j)] #![trigger final(self).ev_get_mut(j)] final(self).ev_insert(j) == old(self).ev_insert(j) && final(self).ev_remove(j) == old(self).ev_remove(j) && final(self).ev_get_mut(j) == old(self).ev_get_mut(j)) /*@E*/;
@@ -40,6 +46,7 @@
         requires old(self).has(id),
         ensures
             /*@L:trait.remove.val*/ r == old(self).val(id) && !final(self).has(id) /*@E*/,
+            /*@L:trait.remove.wf*/ old(self).us_wf() ==> final(self).us_wf() /*@E*/,
             /*@L:trait.remove.frame*/ (forall|j: Index| #![trigger final(self).has(j)] j != id ==> final(self).has(j) == old(self).has(j)) && (forall|j: Index| #![trigger final(self).val(j)] j != id ==> final(self).val(j) == old(self).val(j)) /*@E*/,
             /*@L:trait.remove.events*/ final(self).log() == old(self).log() + old(self).ev_remove(id) && (forall|j: Index| #![trigger final(self).ev_insert(j)] #![trigger final(self).ev_remove(j)] #![trigger final(self).ev_get_mut(j)] final(self).ev_insert(j) == old(self).ev_insert(j) && final(self).ev_remove(j) == old(self).ev_remove(j) && final(self).ev_get_mut(j) == old(self).ev_get_mut(j)) /*@E*/;
 
